@@ -669,6 +669,13 @@ class Producer(object):
                 failure = result
                 result = failure.value.args[0]
                 failed_payloads = failure.value.args[1]
+                if self.req_acks == PRODUCER_ACK_NOT_REQUIRED:
+                    # No responses will ever come for the payloads which were
+                    # handed to their broker: they are done now, whatever
+                    # becomes of the retries of the ones which failed.
+                    for t_and_p, p in payloadsByTopicPart.items():
+                        if not any(p is failed_p for failed_p, _f in failed_payloads):
+                            _deliver_result(deferredsByTopicPart[t_and_p], None)
 
         # Do we have results? Iterate over them and if the response indicates
         # success, then callback the associated deferred. If the response
